@@ -1,10 +1,13 @@
 import HawkModel.CrashLemmas
+import HawkModel.CrashTables
 /-!
 # C01 — No script or input can crash or wedge the embedding process  (PARTIAL by design, see DESIGN.md §5 C01)
 
 What is proved here: the *guards* at the crash-prone sites named in the property anchors are sufficient, for all
 operand values, and the facts about the C text they rest on are re-extracted from the working tree on every check
-(`extract/fnc_dispatch.py`, `loops.py`, `div_sites.py`, `flag_sites.py`, `stack_sites.py` → `HawkModel/Gen/*.lean`).  Memory safety of
+(`extract/fnc_dispatch.py`, `loops.py`, `div_sites.py`, `flag_sites.py`, `stack_sites.py`, and since round 5 `arg_sites.py`,
+`switch_sites.py`, `subscript_sites.py`, `retry_sites.py` over the dominating-facts walker `c01_paths.py` → `HawkModel/Gen/*.lean`;
+criteria and their soundness lemmas for the round-5 tables are in `HawkModel/CrashTables.lean`).  Memory safety of
 the interpreter as a whole is NOT proved: it is exhibited by the sanitizer campaign of `vlib/props/c01.py`
 (sampling).  The evidence file separates the two (`obligations/discharged` vs `evaluations`).
 
@@ -12,7 +15,11 @@ Model totality: every function of `HawkModel/Crash.lean` is a total Lean definit
 the only non-structural recursion, `powLoop`, is accepted with the measure `e` — so "spins inside one statement" is
 impossible for the modelled operations, and `pow_loop_bounded` gives the explicit bound.
 
-Trusted (not proved): an argument declared `r`/`R` in a builtin's argument spec arrives as a HAWK_VAL_REF
+Round 5 adds: `arg_index_below_arity`, `subscripts_in_range`, `retry_measure_decreases`, `fmt_number_scan_bounded` (model of the
+repaired fmt.c digit loop; needs patches/c01-fmt-width-precision-overflow.diff), `switch_total`.
+
+Trusted (not proved): a builtin is never entered with fewer arguments than the minimum of its function-table entry (parse.c /
+run.c check the spec); "dominated by a comparison" is syntactic (c01_paths.py); an argument declared `r`/`R` in a builtin's argument spec arrives as a HAWK_VAL_REF
 (`run.c` `__eval_call`/`get_reference`); the translators; `valtoint`/`valtonum` return in-range integers.
 -/
 namespace Hawk.Crash
@@ -181,5 +188,184 @@ example : stackRowOk ⟨"hawk_rtx_evalcall", 1, "stack_req", 0, "(4+call->nargs)
     [⟨["!fun->variadic", "(fun->nargs>call->nargs)", "fun"], "(fun->nargs-call->nargs)"⟩], 4, [⟨"padto", "fun->nargs", ["fun"]⟩]⟩ = false := by decide
 example : ¬ (4 + 1 + (7 - 1) ≤ 4 + 1 + 0) := by decide
 example : StackSites.rows.length ≥ 5 := by decide
+
+/-! ## argument indices of the builtins stay below the arity their function-table entry guarantees -/
+
+set_option maxRecDepth 100000 in
+/-- (1) every `hawk_rtx_getarg(rtx, I)` of lib/fnc.c, mod-str.c, mod-hawk.c, mod-math.c (table `ArgSites.rows`, regenerated
+    from the sources) has its index below the number of arguments known present at the site: the minimum argument count
+    of the function-table entries that reach the function (`ArgSites.specs`, same run), or a dominating comparison of
+    the actual count (`if (nargs >= 3)`, `for (i = 0; i < nargs; i++)`, `(++i >= nargs)? nil : …`);
+    (2) every function-table entry is consistent (min ≤ max);
+    (3) the criterion is sound: the cell read lies inside the frame of the call for every frame base, actual count and
+    run-time offset that satisfy the spec and the dominating comparison. -/
+theorem arg_index_below_arity :
+    (∀ r ∈ ArgSites.rows, argRowOk r = true) ∧
+    (∀ s ∈ ArgSites.specs, s.min ≤ s.max) ∧
+    (∀ r ∈ ArgSites.rows, ∀ base nargs x : Nat, (r.sym = "" → x = 0 ∧ r.specMin ≤ nargs) →
+        (0 < r.pathMin → r.pathMin + x ≤ nargs) → argCell base (r.idx + x) < argEnd base nargs) := by
+  have h1 : ∀ r ∈ ArgSites.rows, argRowOk r = true := by decide
+  refine ⟨h1, by decide, ?_⟩
+  intro r hr base nargs x hs hp
+  exact argRowOk_sound r (h1 r hr) base nargs x hs hp
+
+/-- non-vacuity: the third argument read without looking at the count is rejected when the spec promises two (the shape
+    `a2 = hawk_rtx_getarg(rtx, 2)` in a {2,3} builtin), accepted under `nargs >= 3`; the tables are populated -/
+example : argRowOk ⟨"fnc.c", "hawk_fnc_substr", 764, "2", 2, "", 2, 0⟩ = false
+    ∧ argRowOk ⟨"fnc.c", "hawk_fnc_substr", 764, "2", 2, "", 2, 3⟩ = true
+    ∧ argRowOk ⟨"mod-hawk.c", "fnc_map", 381, "i", 0, "i", 0, 0⟩ = false := by decide
+set_option maxRecDepth 100000 in
+example : ArgSites.rows.length ≥ 60 ∧ ArgSites.specs.length ≥ 100 := by decide
+set_option maxRecDepth 100000 in
+example : (ArgSites.rows.filter fun r => r.sym != "").length ≥ 4 ∧ (ArgSites.rows.filter fun r => r.specMin < r.pathMin).length ≥ 10 := by decide
+
+/-! ## subscripts into arrays of declared length stay inside them -/
+
+/-- the functions that contain a subscript the translator cannot bound syntactically (count-down loops over a table, free-list
+    slots `cache[--count]`, the dispatch tables indexed by a node type / opcode stored in a bit-field, the input buffer
+    position `buf[pos++]` bounded by `len`, gc generations): the campaign's sanitizer is what covers these.  A new
+    unclassified subscript in any other function breaks `subscripts_in_range`. -/
+def openSubscriptFunctions : List (String × String) := [
+  ("mod-hawk.c", "fnc_gc_get_pressure"),
+  ("mod-hawk.c", "fnc_gc_get_threshold"),
+  ("mod-hawk.c", "fnc_gc_set_threshold"),
+  ("parse.c", "adjust_static_globals"),
+  ("parse.c", "assign_to_opcode"),
+  ("parse.c", "classify_ident"),
+  ("parse.c", "flush_out"),
+  ("parse.c", "get_char"),
+  ("parse.c", "hawk_initgbls"),
+  ("parse.c", "parse_primary_ident"),
+  ("parse.c", "put_char"),
+  ("parse.c", "query_module"),
+  ("parse.c", "unget_char"),
+  ("rio.c", "find_rio_in"),
+  ("rio.c", "hawk_rtx_clearallios"),
+  ("rio.c", "hawk_rtx_closeio"),
+  ("rio.c", "hawk_rtx_closio_read"),
+  ("rio.c", "hawk_rtx_closio_write"),
+  ("rio.c", "hawk_rtx_flushallios"),
+  ("rio.c", "hawk_rtx_flushio"),
+  ("rio.c", "hawk_rtx_nextio_read"),
+  ("rio.c", "hawk_rtx_nextio_write"),
+  ("rio.c", "hawk_rtx_readio"),
+  ("rio.c", "hawk_rtx_readiobytes"),
+  ("rio.c", "prepare_for_write_io_data"),
+  ("run.c", "__cmp_val"),
+  ("run.c", "defaultify_globals"),
+  ("run.c", "eval_assignment"),
+  ("run.c", "eval_binary"),
+  ("run.c", "eval_expression0"),
+  ("run.c", "fini_rtx"),
+  ("run.c", "hawk_rtx_format"),
+  ("run.c", "hawk_rtx_formatmbs"),
+  ("run.c", "hawk_rtx_open"),
+  ("run.c", "init_rtx"),
+  ("tree.c", "print_expr"),
+  ("val.c", "gc_collect_garbage_auto"),
+  ("val.c", "gc_collect_garbage_in_generation"),
+  ("val.c", "hawk_get_val_type_name"),
+  ("val.c", "hawk_rtx_freevalbcstr"),
+  ("val.c", "hawk_rtx_freevaloocstr"),
+  ("val.c", "hawk_rtx_getvalbcstrwithcmgr"),
+  ("val.c", "hawk_rtx_getvaloocstrwithcmgr"),
+  ("val.c", "hawk_rtx_getvaltypename"),
+  ("val.c", "hawk_rtx_makefltval"),
+  ("val.c", "hawk_rtx_makeintval"),
+  ("val.c", "hawk_rtx_makerefval"),
+  ("val.c", "make_mbs_val"),
+  ("val.c", "make_str_val")]
+
+set_option maxRecDepth 1000000 in
+/-- (1) every subscript into an array of declared length in run.c / fnc.c / val.c / rec.c / rio.c / misc.c / parse.c / tree.c /
+    mod-str.c / mod-hawk.c (table `SubscriptSites.rows`, regenerated) that the translator classifies — a constant index, a 0/1
+    index (the IGNORECASE flag, a comparison), an index dominated by `i < h` / `i mod h` / `i & (h-1)`, an index of an enum
+    type with h proper values — satisfies the bound of its class;
+    (2) the unclassified ones lie in the listed functions only;
+    (3) every table indexed by an enum-typed value has exactly as many entries as the enum has proper values;
+    (4) the bound is sound: every index value the class admits is a cell of the array. -/
+theorem subscripts_in_range :
+    (∀ r ∈ SubscriptSites.rows, r.cls ≠ .open → subRowOk r = true) ∧
+    (∀ r ∈ SubscriptSites.rows, r.cls = .open → (r.file, r.fn) ∈ openSubscriptFunctions) ∧
+    (∀ r ∈ SubscriptSites.rows, r.cls = .enumT → r.h = r.len) ∧
+    (∀ r ∈ SubscriptSites.rows, subRowOk r = true → ∀ v, subAdmits r v → v < r.len) := by
+  refine ⟨by decide +kernel, by decide +kernel, by decide +kernel, ?_⟩
+  intro r _ h v hv
+  exact subRowOk_sound r h v hv
+
+/-- non-vacuity: an index known only to be below 3 into a two-cell array (the unrepaired IGNORECASE shape), an off-by-one constant
+    and an unclassified index are rejected -/
+example : subRowOk ⟨"rec.c", "split_record", 258, "rtx->gbl.fs", 2, "i", .below, 3⟩ = false
+    ∧ subRowOk ⟨"run.c", "f", 1, "buf", 64, "64", .lit, 64⟩ = false ∧ subRowOk ⟨"run.c", "f", 1, "buf", 64, "i", .open, 0⟩ = false := by decide
+set_option maxRecDepth 1000000 in
+example : SubscriptSites.rows.length ≥ 400 ∧ (SubscriptSites.rows.filter fun r => r.cls == .below).length ≥ 40
+    ∧ (SubscriptSites.rows.filter fun r => r.cls == .open).length ≤ 120 := by decide +kernel
+
+/-! ## retry-after-failure loops give up -/
+
+/-- (1) every loop of arr.c / ecs-imp.h / val.c / rec.c / misc.c / htb.c / rbt.c that retries a failing attempt
+    (`do { if (attempt succeeded) break; if (X <= M) give up; step X; } while (1)`, table `RetrySites.rows`, regenerated) has
+    the give-up test `X <= M` on its loop variable and one of the steps known to lower it (halve what is above the floor,
+    decrement);
+    (2) such a step strictly lowers the variable and keeps it at or above the floor, for all values;
+    (3) hence the loop, all attempts failing, gives up after at most `X - M + 1` attempts — it cannot spin inside a statement. -/
+theorem retry_measure_decreases :
+    (∀ r ∈ RetrySites.rows, retryRowOk r = true) ∧
+    (∀ (s : RetrySites.Shape), s ≠ .other → ∀ m c : Nat, m < c → retryStep s m c < c ∧ m ≤ retryStep s m c) ∧
+    (∀ (s : RetrySites.Shape) (hs : s ≠ .other) (m c : Nat), failingAttempts s hs m c ≤ c - m + 1) :=
+  ⟨by decide, retryStep_decreases, failingAttempts_le⟩
+
+/-- non-vacuity: the table contains the capacity back-off of hawk_arr_insert; a step the translator does not know is rejected;
+    and the "round the half up" step really has a fixed point above the floor, from which the give-up test is never reached -/
+example : ∃ r ∈ RetrySites.rows, r.fn = "hawk_arr_insert" ∧ r.shape = .halveAbove := by decide
+example : retryRowOk ⟨"arr.c", "hawk_arr_insert", 356, "hawk_arr_setcapa", "capa", "mincapa", "(capa<=mincapa)", "(mincapa+(((capa-mincapa)+1)/2))", .other⟩ = false := by decide
+example (m : Nat) : m + ((m + 1) - m + 1) / 2 = m + 1 ∧ ¬ (m + 1 ≤ m) := roundUp_step_stuck m
+example : RetrySites.rows.length ≥ 3 := by decide
+
+/-! ## a width or precision scanned from a format keeps the recomposed specifier inside its buffer (needs patches/c01-fmt-width-precision-overflow.diff) -/
+
+/-- fmt.c fmt_outv scans the digits of a width / precision into an int; for a floating-point conversion the specifier is
+    composed back, from the scanned numbers, into a buffer sized by the length of the original specifier.  With the
+    repaired loop (`scanNum`), for every digit string: the scan either refuses the number (echoed as an invalid format) or
+    yields a value that fits in an int and whose decimal form needs no more digits than were scanned (`m < 10 ^ #digits`) —
+    so the composed specifier is never longer than the original one. -/
+theorem fmt_number_scan_bounded (ds : List Nat) (hd : ∀ d ∈ ds, d < 10) (m : Nat) (h : scanNum ds 0 = some m) :
+    m ≤ INT32_MAX ∧ m < 10 ^ ds.length := by
+  have := scanNum_bounds ds 0 m (by decide) hd h
+  simpa using this
+
+/-- non-vacuity and the defect: the repaired scan accepts 2^31-1 and refuses 2^31; the unrepaired loop wrapped 2^31 to
+    -2^31, which printed as an unsigned 128-bit number has 39 digits where 10 were scanned -/
+example : scanNum [2, 1, 4, 7, 4, 8, 3, 6, 4, 7] 0 = some 2147483647 ∧ scanNum [2, 1, 4, 7, 4, 8, 3, 6, 4, 8] 0 = none
+    ∧ scanNum [0, 0, 2, 0] 0 = some 20 := by decide
+example : scanNumWrap [2, 1, 4, 7, 4, 8, 3, 6, 4, 8] 0 = -2147483648 := by decide
+example : ¬ ((2 : Int) ^ 128 - 2147483648 < 10 ^ 10) := by decide
+
+/-! ## no switch over an enum falls off for a value it forgot -/
+
+/-- the one switch that is selective by design: set_global acts on the special variables that need a side effect and
+    falls through to the common store for the others -/
+def selectiveSwitches : List (String × String × String) := [("run.c", "set_global", "hawk_gbl_id_t")]
+
+set_option maxRecDepth 100000 in
+/-- (1) every `switch` of run.c / val.c / fnc.c / tree.c / parse.c / misc.c / rec.c / rio.c / mod-str.c / mod-hawk.c whose
+    labels are enumerators (table `SwitchSites.rows`, regenerated) names every value of its enum, or has a `default:`,
+    or is followed by an error exit — except the switches listed in `selectiveSwitches`;
+    (2) for the value-type and node-type enums there is no exception;
+    (3) the counts in the table are consistent;
+    (4) the criterion is sound: a switch with no value missing, or with a default, takes an arm for every enum value. -/
+theorem switch_total :
+    (∀ r ∈ SwitchSites.rows, switchRowOk r = true ∨ (r.file, r.fn, r.enum) ∈ selectiveSwitches) ∧
+    (∀ r ∈ SwitchSites.rows, (r.enum = "hawk_val_type_t" ∨ r.enum = "hawk_nde_type_t") → switchRowOk r = true) ∧
+    (∀ r ∈ SwitchSites.rows, r.nCovered + r.missing = r.nEnum) ∧
+    (∀ (dom labels : List Nat) (d : Bool), missingOf dom labels = 0 ∨ d = true → ∀ v ∈ dom, dispatch labels d v ≠ .falloff) := by
+  refine ⟨by decide, by decide, by decide, dispatch_total⟩
+
+/-- non-vacuity: a value-type switch that forgot one type and has no default is rejected; such a switch really falls off -/
+example : switchRowOk ⟨"val.c", "hawk_rtx_valtobool", 1837, "vtype", "hawk_val_type_t", 12, 11, 1, 0, false, .none, .value⟩ = false := by decide
+example : dispatch [0, 1, 2] false 3 = .falloff ∧ dispatch [0, 1, 2] true 3 = .dflt ∧ dispatch [0, 1, 2] false 1 = .label 1 := by decide
+set_option maxRecDepth 100000 in
+example : SwitchSites.rows.length ≥ 60 ∧ (SwitchSites.rows.filter fun r => r.enum == "hawk_val_type_t").length ≥ 15
+    ∧ (SwitchSites.rows.filter fun r => r.dflt == .error).length ≥ 30 := by decide
 
 end Hawk.Crash
